@@ -255,7 +255,7 @@ def random_tbl(rng):
         typ, c0, c1 = rng.choice([0, 1, 2, -2, -3, -4, -5]), rng.randint(1, 20), rng.randint(21, 40)
         lines.append('"%s"' % name)
         lines.append(" " + " ".join("%.6f" % v for v in vals) + " %d %d %d" % (typ, c0, c1))
-        els[name] = [name] + [int(round(v * 1e4)) for v in vals] + [c0, c1]
+        els[name] = [name] + [int(round(v * 1e4)) for v in vals] + [c0, c1, {0: "EXTWALL", 1: "WINDOW", 2: "DOOR", -2: "ADBWALL", -3: "GNDWALL", -4: "INTWALL", -5: "INTFLOOR"}[typ]]   # the type the written code stands for
     for j in range(m):
         name = "P01_E%02d" % (j + 1)
         mult, area, qint = rng.randint(2, 4), round(rng.uniform(11, 100), 3), round(rng.uniform(0.1, 10), 3)
